@@ -1,7 +1,7 @@
 #!/bin/sh
-# Run every thorough check once (used in `vp run` to validate the thorough tier and its timing).
+# Run every registered thorough check once (after setup); print one line per check.  For `vp run`.
 cd "$(dirname "$0")/.." || exit 2
 ./setup.sh > setup.log 2>&1 || { tail -5 setup.log; exit 2; }
 for p in $(python3 -c "import json;print(' '.join(c['property_id'] for c in json.load(open('MANIFEST.json'))['checks']))"); do
-  /usr/bin/time -f "%es %MKB" ./check "$p" --tier thorough 2>&1 | grep -E "VIOLATION|KNOWN|-> exit|^note|s [0-9]+KB" | cut -c1-300
+  /usr/bin/time -f "%es %MKB" ./check "$p" --tier thorough 2>&1 | grep -E "VIOLATION|KNOWN|-> exit|KB$" | tr '\n' ' '; echo
 done
